@@ -171,6 +171,101 @@ def prop_c18sv(cname, d, hname, msg, k, ossl):
     return "ok"
 
 
+@op("prop.c18hist")
+def prop_c18hist(cname, seed, steps):
+    """a history on long-lived key objects: two key pairs (and a second VerifyingKey object of the first) sign and verify
+    many messages with changing hashes, encodings and nonces; every signature is the textbook one for its nonce (RFC 6979
+    nonce in deterministic mode) and every verification gives the textbook verdict, whatever came before"""
+    import random
+    rng = random.Random(int(seed))
+    curve = curves.curve_by_name(cname)
+    c = refcurve(curve)
+    n = c["n"]
+    Gp = (c["gx"], c["gy"])
+    ds = [rng.randrange(1, n), rng.choice([1, n - 1, rng.randrange(1, n)])]
+    sks = [keys.SigningKey.from_secret_exponent(d, curve, hashfunc=hashlib.sha1) for d in ds]
+    vks = [sks[0].verifying_key, sks[1].verifying_key, keys.VerifyingKey.from_string(sks[0].verifying_key.to_string(), curve)]
+    owner = [0, 1, 0]
+    Qs = [refec.mul(c, d, Gp) for d in ds]
+    pool = [b"", b"a", bytes(rng.randrange(256) for _ in range(33)), bytes(rng.randrange(256) for _ in range(70))]
+    sigs = []                                    # (signer, message, hash name, r, s)
+    log = []
+    for _ in range(int(steps)):
+        kind = rng.choice(["sign", "sign", "det", "verify", "verify", "verify", "pre"])
+        if kind == "pre":
+            v = rng.randrange(3)
+            try:
+                vks[v].precompute(lazy=rng.random() < 0.5)
+            except Exception as ex:
+                return f"FAIL {' '.join(log)} precompute raises {type(ex).__name__}"
+            log.append(f"vk{v}.precompute")
+            continue
+        if kind in ("sign", "det"):
+            i = rng.randrange(2)
+            m = rng.choice(pool)
+            hname = rng.choice(list(HASHES))
+            hf = HASHES[hname]
+            ename = rng.choice(list(ENCODERS))
+            enc, dec = ENCODERS[ename]
+            dg = hf(m).digest()
+            e = digest_int(dg, n)
+            try:
+                if kind == "sign":
+                    k = rng.choice([rng.randrange(1, n), 1, 2, n - 1])
+                    if rng.random() < 0.5:
+                        sig = sks[i].sign(m, hashfunc=hf, sigencode=enc, k=k)
+                    else:
+                        sig = sks[i].sign_digest(dg, sigencode=enc, k=k, allow_truncate=True)
+                else:
+                    extra = rng.choice([b"", b"", bytes(rng.randrange(256) for _ in range(8))])
+                    k = ref_generate_k(n, ds[i], hf, dg, extra)
+                    if rng.random() < 0.5:
+                        sig = sks[i].sign_deterministic(m, hashfunc=hf, sigencode=enc, extra_entropy=extra)
+                    else:
+                        sig = sks[i].sign_digest_deterministic(dg, hashfunc=hf, sigencode=enc, extra_entropy=extra, allow_truncate=True)
+            except ecdsa_mod.RSZeroError:
+                continue
+            except Exception as ex:
+                return f"FAIL {' '.join(log)} then {kind}({hname},{ename}) by key {i} raises {type(ex).__name__} at {where(ex)}"
+            log.append(f"sk{i}.{kind}[{hname},{ename}]")
+            r0, s0 = ref_sign(c, ds[i], e, k)
+            if "canonize" in ename and s0 > n // 2:
+                s0 = n - s0
+            try:
+                got = dec(sig, n)
+            except Exception as ex:
+                return f"FAIL {' '.join(log)}: own signature does not decode ({type(ex).__name__})"
+            if got != (r0, s0):
+                return f"FAIL {' '.join(log)}: signature of key {i} over {m.hex()!r} is not the ECDSA signature for its nonce"
+            sigs.append((i, m, hname, r0, s0))
+            continue
+        if not sigs:
+            continue
+        i, m, hname, r0, s0 = rng.choice(sigs)
+        v = rng.randrange(3)
+        m2 = m if rng.random() < 0.6 else rng.choice(pool)
+        h2 = hname if rng.random() < 0.7 else rng.choice(list(HASHES))
+        hf = HASHES[h2]
+        ename = rng.choice(["string", "strings", "der"])
+        enc, dec = ENCODERS[ename]
+        dg = hf(m2).digest()
+        want = ref_verify(c, Qs[owner[v]], digest_int(dg, n), r0, s0)
+        log.append(f"vk{v}.verify[{h2},{ename},sig of key {i}]")
+        try:
+            if rng.random() < 0.5:
+                res = vks[v].verify(enc(r0, s0, n), m2, hashfunc=hf, sigdecode=dec)
+            else:
+                res = vks[v].verify_digest(enc(r0, s0, n), dg, sigdecode=dec, allow_truncate=True)
+        except BadSignatureError:
+            res = False
+        except Exception as ex:
+            return f"FAIL {' '.join(log)} raises {type(ex).__name__} at {where(ex)}"
+        if res is not want:
+            return (f"FAIL {' '.join(log)}: verdict {res!r}, textbook ECDSA says {want} (message {m2.hex()!r}, r={r0}, s={s0}, "
+                    f"key {owner[v]})")
+    return "ok"
+
+
 @op("prop.c18tamper")
 def prop_c18tamper(cname, d, hname, msg, k, stride, offset):
     """every single-bit change of the message and of the encoded signature makes verification fail with
